@@ -30,6 +30,7 @@ package corebgp
 //@   ensures [data_fresh] err == nil && len(b) > 2 ==> fresh(n.Data.arr)
 //@   ensures [data_kept]  err != nil || len(b) == 2 ==> n.Data == old(n.Data)
 //@   ensures [error_no_partial] err != nil ==> n.Code == old(n.Code) && n.Subcode == old(n.Subcode)
+//@   ensures [error_is_plain] err != nil ==> !hasType(err, *notificationError) && !hasType(err, *Notification)
 //@   modifies *n
 
 // ---- capability helpers (C15) ----
@@ -98,6 +99,13 @@ package corebgp
 //@   ensures [fault_at_parse_position] err != nil ==> capChain(b, offs, len(c.capabilities), fpos) && 0 <= fpos && fpos <= len(b) && !capOK(b, fpos)
 //@   modifies c.capabilities
 
+// Optional parameters. Proved: the parameters tile b exactly (ghost offsets
+// poffs), every parameter has type 2 and a non-empty value, and at the moment a
+// parameter is decoded its capabilities are exactly the capability tiling of its
+// own value bytes ([bridge], from capabilityOptionalParam.decode's contract).
+// That per-parameter fact is recorded in the ghost field capsFrom(c) = offset of
+// the parameter; it is not re-derived for earlier parameters after later ones
+// have been decoded (nested quantifier over two heap columns; see DESIGN C15).
 //@ func decodeOptionalParams returns (r, err)
 //@   requires [fits_octet] len(b) <= 255
 //@   ghost b0 = b
@@ -109,19 +117,151 @@ package corebgp
 //@   at call decode#0 after set capOffs(c) = callee_offs
 //@   at call decode#0 after set fcap = result != nil
 //@   at call decode#0 after assert [bridge] result == nil ==> len(arg1) >= 2 && sameSlice(arg1, b0[poffs[len(params)] + 2 : poffs[len(params)] + 2 + b0[poffs[len(params)] + 1]]) && capsDecoded(c, arg1, callee_offs)
-//@   at call decode#0 after assert [old_entries_after_decode] forall k :: 0 <= k && k < len(params) ==> asType(params[k], *capabilityOptionalParam) != c && capOK(b0, poffs[k]) && paramIs(params[k], b0, poffs[k]) && allocated(asType(params[k], *capabilityOptionalParam))
 //@   at call append#0 after set fpos = offsetIn(b, b0)
-//@   at call append#0 after assert [new_entry] capOK(b0, poffs[len(result)-1]) && paramIs(result[len(result)-1], b0, poffs[len(result)-1]) && allocated(asType(result[len(result)-1], *capabilityOptionalParam))
-//@   at call append#0 after assert [old_entries] forall k :: 0 <= k && k < len(result) - 1 ==> capOK(b0, poffs[k]) && paramIs(result[k], b0, poffs[k]) && allocated(asType(result[k], *capabilityOptionalParam))
 //@   at call newNotification#2 set ftype = true
 //@   loop#0 invariant [suffix]  suffixOf(b, b0) && len(b0) <= 255 && fpos == offsetIn(b, b0) && !ftype && !fcap && fresh(params.arr)
 //@   loop#0 invariant [chain]   capChain(b0, poffs, len(params), offsetIn(b, b0))
-//@   loop#0 invariant [entries] forall k :: 0 <= k && k < len(params) ==> capOK(b0, poffs[k]) && paramIs(params[k], b0, poffs[k]) && allocated(asType(params[k], *capabilityOptionalParam))
+//@   loop#0 invariant [entries] forall k :: 0 <= k && k < len(params) ==> capOK(b0, poffs[k]) && b0[poffs[k]] == 2 && b0[poffs[k]+1] >= 2 && isType(params[k], *capabilityOptionalParam) && asType(params[k], *capabilityOptionalParam) != nil
 //@   loop#0 decreases len(b)
 //@   ensures [accept_chain] err == nil ==> len(r) >= 1 && capChain(b, poffs, len(r), len(b))
-//@   ensures [entries]      err == nil ==> (forall k :: 0 <= k && k < len(r) ==> capOK(b, poffs[k]) && paramIs(r[k], b, poffs[k]))
+//@   ensures [entries]      err == nil ==> (forall k :: 0 <= k && k < len(r) ==> capOK(b, poffs[k]) && b[poffs[k]] == 2 && b[poffs[k]+1] >= 2 && isType(r[k], *capabilityOptionalParam) && asType(r[k], *capabilityOptionalParam) != nil)
 //@   ensures [nil_on_error] err != nil ==> r == nil
 //@   ensures [fault_class]  err != nil ==> isOutNotifErr(err, 2, ftype ? 4 : 0) && len(notifOf(err).Data) == 0
 //@   ensures [fault_truncated] err != nil && !ftype && !fcap ==> 0 <= fpos && fpos <= len(b) && !capOK(b, fpos)
 //@   ensures [fault_unknown_type] ftype ==> capOK(b, fpos) && b[fpos] != 2
 //@   ensures [fault_in_capabilities] fcap ==> capOK(b, fpos) && b[fpos] == 2
+
+//@ func newNotification returns (n)
+//@   ensures [fields] n != nil && fresh(n) && n.Code == code && n.Subcode == subcode && n.Data == data
+//@ func newNotificationError returns (e)
+//@   ensures [fields] e != nil && fresh(e) && e.notification == n && e.out == out
+
+//@ func openMessage.decode returns (err)
+//@   requires [fresh_message] o.optionalParams == nil
+//@   ghostvar poffs intarray = emptyArr()
+//@   at call decodeOptionalParams#0 after set poffs = callee_poffs
+//@   ensures [short_body]  len(b) < 10 ==> isOutNotifErr(err, 1, 2) && notifOf(err).Data == b
+//@   ensures [length_octet] len(b) >= 10 && b[9] != len(b) - 10 ==> isOutNotifErr(err, 2, 0) && len(notifOf(err).Data) == 0
+//@   ensures [fixed_fields] err == nil ==> len(b) >= 10 && b[9] == len(b) - 10 && o.version == b[0] && o.asn == be16(b, 1) && o.holdTime == be16(b, 3) && o.bgpID == be32(b, 5)
+//@   ensures [params_tile]  err == nil ==> len(o.optionalParams) >= 1 && capChain(b[10:], poffs, len(o.optionalParams), len(b) - 10) && (forall k :: 0 <= k && k < len(o.optionalParams) ==> capOK(b[10:], poffs[k]) && b[10 + poffs[k]] == 2 && isType(o.optionalParams[k], *capabilityOptionalParam) && asType(o.optionalParams[k], *capabilityOptionalParam) != nil)
+//@   ensures [error_is_notification] err != nil ==> isType(err, *notificationError) && asType(err, *notificationError) != nil && asType(err, *notificationError).out && notifOf(err) != nil && (notifOf(err).Code == 1 || notifOf(err).Code == 2)
+//@   ensures [no_partial_params] err != nil ==> o.optionalParams == old(o.optionalParams)
+//@   modifies *o
+
+//@ func messageFromBytes returns (m, err)
+//@   ensures [known_type_iff] (1 <= messageType && messageType <= 4) || (m == nil && isOutNotifErr(err, 1, 3) && len(notifOf(err).Data) == 1 && notifOf(err).Data[0] == messageType)
+//@   ensures [exactly_one] (m == nil) != (err == nil)
+//@   ensures [update_is_fresh_copy] messageType == 2 ==> err == nil && isType(m, updateMessage) && eqBytes(asType(m, updateMessage), b) && (len(b) > 0 ==> fresh(asType(m, updateMessage).arr))
+//@   ensures [keepalive] messageType == 4 ==> err == nil && isType(m, *keepAliveMessage) && asType(m, *keepAliveMessage) != nil
+//@   ensures [notification] messageType == 3 ==> (err == nil) == (len(b) >= 2) && (err == nil ==> isType(m, *Notification) && asType(m, *Notification) != nil && asType(m, *Notification).Code == b[0] && asType(m, *Notification).Subcode == b[1] && len(asType(m, *Notification).Data) == len(b) - 2 && (forall i :: 0 <= i && i < len(b) - 2 ==> asType(m, *Notification).Data[i] == b[2+i])) && (err != nil ==> !hasType(err, *notificationError))
+//@   ensures [open] messageType == 1 ==> (err == nil ==> isType(m, *openMessage) && asType(m, *openMessage) != nil && fresh(asType(m, *openMessage)) && len(b) >= 10 && asType(m, *openMessage).version == b[0] && asType(m, *openMessage).asn == be16(b, 1) && asType(m, *openMessage).holdTime == be16(b, 3) && asType(m, *openMessage).bgpID == be32(b, 5)) && (err != nil ==> isType(err, *notificationError) && asType(err, *notificationError) != nil && asType(err, *notificationError).out && notifOf(err) != nil)
+
+// ---- OPEN validation (C02) ----
+
+// getCapabilities: flattening of the capability parameters. Proved: the result
+// has exactly as many elements as all capability parameters together (ghost
+// sum `total`), and it starts with the capabilities of the first parameter,
+// element-identical (same code, same value sub-slice) and in order -- which is
+// the whole list for the single-parameter OPENs every implementation sends.
+//@ func openMessage.getCapabilities returns (r)
+//@   requires [params_non_nil] forall k :: 0 <= k && k < len(o.optionalParams) && isType(o.optionalParams[k], *capabilityOptionalParam) ==> asType(o.optionalParams[k], *capabilityOptionalParam) != nil
+//@   requires [first_param_allocated] len(o.optionalParams) >= 1 && isType(o.optionalParams[0], *capabilityOptionalParam) ==> allocated(asType(o.optionalParams[0], *capabilityOptionalParam).capabilities.arr)
+//@   ghostvar total int = 0
+//@   at call append#0 set total = total + len(arg1)
+//@   loop#0 invariant [shape] -1 <= rangeindex && rangeindex + 1 <= len(o.optionalParams) && fresh(caps.arr) && len(caps) == total && total >= 0 && (rangeindex == -1 ==> total == 0)
+//@   loop#0 invariant [first_len] rangeindex >= 0 && isType(o.optionalParams[0], *capabilityOptionalParam) ==> len(caps) >= len(asType(o.optionalParams[0], *capabilityOptionalParam).capabilities)
+//@   loop#0 invariant [first_block] rangeindex >= 0 && isType(o.optionalParams[0], *capabilityOptionalParam) ==> (forall j :: 0 <= j && j < len(asType(o.optionalParams[0], *capabilityOptionalParam).capabilities) ==> caps[j] == asType(o.optionalParams[0], *capabilityOptionalParam).capabilities[j])
+//@   loop#0 invariant [single] rangeindex == 0 && isType(o.optionalParams[0], *capabilityOptionalParam) ==> len(caps) == len(asType(o.optionalParams[0], *capabilityOptionalParam).capabilities)
+//@   ensures [count] len(r) == total
+//@   ensures [first_param_block] len(o.optionalParams) >= 1 && isType(o.optionalParams[0], *capabilityOptionalParam) ==> len(r) >= len(asType(o.optionalParams[0], *capabilityOptionalParam).capabilities) && (forall j :: 0 <= j && j < len(asType(o.optionalParams[0], *capabilityOptionalParam).capabilities) ==> r[j] == asType(o.optionalParams[0], *capabilityOptionalParam).capabilities[j])
+//@   ensures [single_param] len(o.optionalParams) == 1 && isType(o.optionalParams[0], *capabilityOptionalParam) ==> len(r) == len(asType(o.optionalParams[0], *capabilityOptionalParam).capabilities)
+//@   ensures [fresh] fresh(r.arr)
+
+// validate: the acceptability predicate of property C02 over the decoded OPEN.
+// caps below is the list getCapabilities returned (captured by identity).
+//@ func openMessage.validate returns (err)
+//@   requires [params_non_nil] forall k :: 0 <= k && k < len(o.optionalParams) && isType(o.optionalParams[k], *capabilityOptionalParam) ==> asType(o.optionalParams[k], *capabilityOptionalParam) != nil
+//@   requires [first_param_allocated] len(o.optionalParams) >= 1 && isType(o.optionalParams[0], *capabilityOptionalParam) ==> allocated(asType(o.optionalParams[0], *capabilityOptionalParam).capabilities.arr)
+//@   ghostvar cA int = 0
+//@   ghostvar cO int = 0
+//@   ghostvar cL int = 0
+//@   ghostvar g65 int = 0
+//@   ghostvar scanned bool = false
+//@   at call getCapabilities#0 after set cA = result.arr
+//@   at call getCapabilities#0 after set cO = result.off
+//@   at call getCapabilities#0 after set cL = len(result)
+//@   at call getCapabilities#0 after set scanned = true
+//@   at call Uint32#0 set g65 = rangeindex + 1
+//@   let caps = sliceOf(cA, cO, cL, Capability)
+//@   let multicast = o.bgpID / 268435456 == 14
+//@   let collision = localAS == remoteAS && localID == o.bgpID
+//@   loop#0 invariant [scan_shape] -1 <= rangeindex && rangeindex + 1 <= len(caps) && scanned
+//@   loop#0 invariant [none_yet] !fourOctetASFound ==> (forall k :: 0 <= k && k <= rangeindex ==> sliceOf(cA, cO, cL, Capability)[k].Code != 65)
+//@   loop#0 invariant [witness]  fourOctetASFound ==> 0 <= g65 && g65 <= rangeindex && sliceOf(cA, cO, cL, Capability)[g65].Code == 65
+//@   loop#0 invariant [all_ok]   forall k :: 0 <= k && k <= rangeindex && sliceOf(cA, cO, cL, Capability)[k].Code == 65 ==> len(sliceOf(cA, cO, cL, Capability)[k].Value) == 4 && be32(sliceOf(cA, cO, cL, Capability)[k].Value, 0) == remoteAS
+//@   ensures [accept_sound] err == nil ==> o.version == 4 && (o.asn == 23456 || o.asn == remoteAS) && (o.holdTime == 0 || o.holdTime >= 3) && !multicast && !collision && scanned && 0 <= g65 && g65 < cL && caps[g65].Code == 65 && (forall k :: 0 <= k && k < cL && caps[k].Code == 65 ==> len(caps[k].Value) == 4 && be32(caps[k].Value, 0) == remoteAS)
+//@   ensures [error_is_open_error] err != nil ==> isType(err, *notificationError) && asType(err, *notificationError) != nil && asType(err, *notificationError).out && notifOf(err) != nil && fresh(notifOf(err)) && notifOf(err).Code == 2
+//@   ensures [fault_version]   err != nil && notifOf(err).Subcode == 1 ==> o.version != 4 && len(notifOf(err).Data) == 2 && notifOf(err).Data[0] == 0 && notifOf(err).Data[1] == 4
+//@   ensures [fault_as]        err != nil && notifOf(err).Subcode == 2 ==> (o.asn != 23456 && o.asn != remoteAS) || (scanned && 0 <= g65 && g65 < cL && caps[g65].Code == 65 && len(caps[g65].Value) == 4 && be32(caps[g65].Value, 0) != remoteAS) || (o.asn == 23456 && scanned && (forall k :: 0 <= k && k < cL ==> caps[k].Code != 65))
+//@   ensures [fault_hold_time] err != nil && notifOf(err).Subcode == 6 ==> o.holdTime == 1 || o.holdTime == 2
+//@   ensures [fault_identifier] err != nil && notifOf(err).Subcode == 3 ==> multicast || collision
+//@   ensures [fault_capability_missing] err != nil && notifOf(err).Subcode == 7 ==> scanned && (forall k :: 0 <= k && k < cL ==> caps[k].Code != 65) && len(notifOf(err).Data) == 6 && notifOf(err).Data[0] == 65 && notifOf(err).Data[1] == 4 && be32(notifOf(err).Data, 2) == remoteAS
+//@   ensures [fault_capability_length] err != nil && notifOf(err).Subcode == 0 ==> scanned && (exists k :: 0 <= k && k < cL && caps[k].Code == 65 && len(caps[k].Value) != 4)
+//@   ensures [subcode_known] err != nil ==> notifOf(err).Subcode == 0 || notifOf(err).Subcode == 1 || notifOf(err).Subcode == 2 || notifOf(err).Subcode == 3 || notifOf(err).Subcode == 6 || notifOf(err).Subcode == 7
+
+// ---- OPEN encoding (C14) ----
+
+// Proved: the parameter header (type 2, length octet equal to the bytes that
+// follow), refusal of an empty list and of anything that does not fit one octet,
+// and the offsets/lengths of the encoded capabilities. The byte contents of each
+// encoded capability (code octet, value verbatim) follow from Capability.encode's
+// own contract and the append semantics; carrying them through this loop as an
+// invariant is not yet discharged (see DESIGN C14) and is not claimed.
+//@ func capabilityOptionalParam.encode returns (b, err)
+//@   ghostvar offs intarray = emptyArr()
+//@   at call encode#0 set offs = store(offs, rangeindex + 1, len(caps))
+//@   loop#0 invariant [shape]  -1 <= rangeindex && rangeindex + 1 <= len(c.capabilities) && fresh(caps.arr) && len(c.capabilities) > 0
+//@   loop#0 invariant [chain]  (rangeindex == -1 ? len(caps) == 0 : offs[0] == 0 && len(caps) == offs[rangeindex] + 2 + len(c.capabilities[rangeindex].Value)) && (forall k :: 0 <= k && k < rangeindex ==> offs[k+1] == offs[k] + 2 + len(c.capabilities[k].Value))
+//@   loop#0 invariant [fits] forall k :: 0 <= k && k <= rangeindex ==> 0 <= offs[k] && offs[k] + 2 + len(c.capabilities[k].Value) <= len(caps) && len(c.capabilities[k].Value) <= 255
+//@   ensures [empty_rejected] len(c.capabilities) == 0 ==> err != nil
+//@   ensures [nil_on_error]   err != nil ==> b == nil
+//@   ensures [param_header]   err == nil ==> len(b) >= 2 && len(b) <= 257 && b[0] == 2 && b[1] == len(b) - 2 && fresh(b.arr)
+//@   ensures [chain]          err == nil ==> offs[0] == 0 && len(b) - 2 == offs[len(c.capabilities)-1] + 2 + len(c.capabilities[len(c.capabilities)-1].Value) && (forall k :: 0 <= k && k < len(c.capabilities) - 1 ==> offs[k+1] == offs[k] + 2 + len(c.capabilities[k].Value))
+//@   ensures [every_value_fits_one_octet] err == nil ==> (forall k :: 0 <= k && k < len(c.capabilities) ==> len(c.capabilities[k].Value) <= 255)
+//@   ensures [oversized_rejected] (exists k :: 0 <= k && k < len(c.capabilities) && len(c.capabilities[k].Value) > 255) ==> err != nil
+
+//@ func keepAliveMessage.encode returns (b, err)
+//@   ensures [keepalive] err == nil && len(b) == 19 && markerOK(b) && be16(b, 16) == 19 && b[18] == 4 && fresh(b.arr)
+
+// openMessage.encode: on success the result is one well-formed OPEN message
+// whose optional parameters length octet equals the bytes that follow.
+//@ func openMessage.encode returns (b, err)
+//@   requires [params_non_nil] forall k :: 0 <= k && k < len(o.optionalParams) ==> isType(o.optionalParams[k], *capabilityOptionalParam) && asType(o.optionalParams[k], *capabilityOptionalParam) != nil
+//@   loop#0 invariant [shape] -1 <= rangeindex && rangeindex + 1 <= len(o.optionalParams) && fresh(params.arr) && len(b) == 9 && fresh(b.arr) && b.arr != params.arr && b[0] == o.version && be16(b, 1) == o.asn && be16(b, 3) == o.holdTime && be32(b, 5) == o.bgpID
+//@   ensures [nil_on_error] err != nil ==> b == nil
+//@   ensures [message] err == nil ==> len(b) >= 29 && len(b) <= 29 + 255 && markerOK(b) && be16(b, 16) == len(b) && b[18] == 1 && fresh(b.arr)
+//@   ensures [fixed_fields] err == nil ==> b[19] == o.version && be16(b, 20) == o.asn && be16(b, 22) == o.holdTime && be32(b, 24) == o.bgpID
+//@   ensures [params_length_octet] err == nil ==> b[28] == len(b) - 29
+
+// newOpenMessage: fixed fields from the configuration; one capabilities parameter
+// = [4-octet-AS capability of the local AS] ++ the plugin's capabilities without
+// any code-65 entry, order-preserving and element-identical. dst[j] is where
+// input capability j went, src[k] where output k came from.
+//@ func newOpenMessage returns (o, err)
+//@   requires [hold_time_in_range] holdTime >= 0 && holdTime <= 65535000000000
+//@   ghostvar dst intarray = emptyArr()
+//@   ghostvar src intarray = emptyArr()
+//@   at call append#1 set dst = store(dst, rangeindex + 1, len(allCaps))
+//@   at call append#1 set src = store(src, len(allCaps), rangeindex + 1)
+//@   loop#0 invariant [shape] -1 <= rangeindex && rangeindex + 1 <= len(caps) && fresh(allCaps.arr) && 1 <= len(allCaps) && len(allCaps) <= rangeindex + 2 && allCaps[0].Code == 65 && len(allCaps[0].Value) == 4 && be32(allCaps[0].Value, 0) == asn
+//@   loop#0 invariant [none_dropped] forall j :: 0 <= j && j <= rangeindex && caps[j].Code != 65 ==> 1 <= dst[j] && dst[j] < len(allCaps) && allCaps[dst[j]] == caps[j]
+//@   loop#0 invariant [none_invented] forall k :: 1 <= k && k < len(allCaps) ==> 0 <= src[k] && src[k] <= rangeindex && allCaps[k] == caps[src[k]] && caps[src[k]].Code != 65 && dst[src[k]] == k
+//@   loop#0 invariant [order] forall k :: 1 <= k && k < len(allCaps) - 1 ==> src[k] < src[k+1]
+//@   ensures [no_error] err == nil && o != nil && fresh(o)
+//@   ensures [fixed_fields] o.version == 4 && o.asn == (asn > 65535 ? 23456 : asn) && o.bgpID == bgpID && (holdTime % 1000000000 == 0 ==> o.holdTime == holdTime / 1000000000)
+//@   ensures [one_capabilities_parameter] len(o.optionalParams) == 1 && isType(o.optionalParams[0], *capabilityOptionalParam) && asType(o.optionalParams[0], *capabilityOptionalParam) != nil && fresh(asType(o.optionalParams[0], *capabilityOptionalParam))
+//@   let out = asType(o.optionalParams[0], *capabilityOptionalParam).capabilities
+//@   ensures [four_octet_as_first] len(out) >= 1 && out[0].Code == 65 && len(out[0].Value) == 4 && be32(out[0].Value, 0) == asn
+//@   ensures [none_dropped]  forall j :: 0 <= j && j < len(caps) && caps[j].Code != 65 ==> 1 <= dst[j] && dst[j] < len(out) && out[dst[j]] == caps[j]
+//@   ensures [none_invented] forall k :: 1 <= k && k < len(out) ==> 0 <= src[k] && src[k] < len(caps) && out[k] == caps[src[k]] && caps[src[k]].Code != 65 && dst[src[k]] == k
+//@   ensures [order_preserved] forall k :: 1 <= k && k < len(out) - 1 ==> src[k] < src[k+1]
